@@ -6,10 +6,21 @@ and cache on or off): a run never fails with an internal consistency error — p
 backwards, a step scheduled in a simulator's past.  The third internal error of the property,
 "incomparable delays", can only arise in the closures before the first step (C06, finding D7).
 
-`deadlock_free` and `terminates` are NOT proved yet (see DESIGN.md section 9): they are covered by
-the correspondence runs and the implementation monitor only.
+`deadlock_free_flat`: for configurations without simulator groups (`Flat`: one-tier times, delays that
+are numbers of time steps, and a ranking of the simulators along the zero-delay connections, i.e. no
+data-flow cycle without a time shift) the scheduler never waits on a condition that cannot become
+true: in every reachable state that has not failed, as long as some simulator's process has not
+ended, a process can be started, woken or begin its step, or a simulator is inside `step` /
+`get_data` (and will answer).  The proof rests on three further invariants: the awaited time of a
+waiting process is current (`reach_awaitOk`), progress is up to date whenever no step is in flight
+(`reach_upToDate`), an ended process has reached `until` (`reach_doneOk`).
+NOT proved: the same for grouped (tiered) configurations, and a bound on the number of scheduler
+transitions between two steps; those are covered by the correspondence runs and the implementation
+monitor (deadlock = idle event loop with unfinished `run()`) only.
 -/
 import MosaikProofs.Sched.Errors
+import MosaikProofs.Sched.Deadlock
+import MosaikProofs.Properties.C01
 namespace Mosaik.C05
 open Mosaik
 
@@ -74,5 +85,60 @@ theorem await_le_end {cfg : Cfg} (s : State) (p : Sid) (a : TT) (dl : Option Nat
         split
         · exact TT.le_refl _
         · rename_i hn; exact TT.not_lt.mp hn
+
+/-- **deadlock freedom, flat configurations** (statement and proof: `Sched/Deadlock.lean`) -/
+theorem deadlock_free_flat {cfg : Cfg} (hw : WFCfg cfg) (hs : WFShape cfg) {rank : Sid → Nat} (hfl : Flat cfg rank)
+    {s : State} (hr : Reach cfg s) (hnf : s.failed = none) (hsome : ∃ p, p < cfg.n ∧ (s.sims p).pc ≠ .done) :
+    (∃ p, (step cfg s (.start p)).isSome = true) ∨
+    ((∃ p, (step cfg s (.wake p)).isSome = true) ∨ (∃ p, (step cfg s (.deps p)).isSome = true)) ∨
+    (∃ p, p < cfg.n ∧ ((s.sims p).pc = .inStep ∨ (s.sims p).pc = .inGet)) :=
+  Mosaik.deadlock_free_flat hw hs hfl hr hnf hsome
+
+/-- a blocked simulator is held up by a strictly smaller one (the step of the descent) -/
+theorem blocked_by_smaller {cfg : Cfg} (hw : WFCfg cfg) (hs : WFShape cfg) {rank : Sid → Nat} (hfl : Flat cfg rank)
+    {s : State} (hr : Reach cfg s) (hnf : s.failed = none) (hidle : Idle cfg s)
+    (hstarted : ∀ q, q < cfg.n → (s.sims q).pc ≠ .init) {q : Sid} (hq : q < cfg.n) (hnd : (s.sims q).pc ≠ .done) :
+    Moves cfg s ∨ ∃ r, r < cfg.n ∧ (s.sims r).pc ≠ .done ∧ Before s rank r q :=
+  blocked_or_moves hw hs hfl hr hnf hidle hstarted hq hnd
+
+/-! non-vacuity: the two-simulator configuration A → B of C01 (trigger connection, lazy stepping off)
+is flat with `rank = id`, and it has reachable quiescent states with unfinished simulators. -/
+theorem exCfg_sim (p : Nat) : C01.exCfg.sim (p + 2) = {} := by
+  simp [Cfg.sim, C01.exCfg]
+
+example : WFShape C01.exCfg := by
+  constructor
+  · intro x hx tr htr
+    match x, hx with
+    | 0, _ => simp [C01.exCfg, Cfg.sim] at htr; subst htr; rfl
+    | 1, _ => simp [C01.exCfg, Cfg.sim] at htr
+  · intro q hq ad had
+    match q, hq with
+    | 0, _ => simp [C01.exCfg, Cfg.sim] at had
+    | 1, _ => simp [C01.exCfg, Cfg.sim] at had; subst had; rfl
+  · intro p t ht
+    match p with
+    | 0 => simp [C01.exCfg, Cfg.sim] at ht; subst ht; rfl
+    | 1 => simp [C01.exCfg, Cfg.sim] at ht
+    | p + 2 => rw [exCfg_sim] at ht; simp at ht
+
+example : Flat C01.exCfg id := by
+  have hn : C01.exCfg.n = 2 := rfl
+  constructor
+  · intro p
+    match p with
+    | 0 => rfl
+    | 1 => rfl
+    | p + 2 => rw [exCfg_sim]
+  all_goals
+    intro p hp x hx
+    rw [hn] at hp
+    match p, hp with
+    | 0, _ => simp [C01.exCfg, Cfg.sim] at hx <;> (try subst hx) <;> (try rw [hn]) <;> simp [tier]
+    | 1, _ => simp [C01.exCfg, Cfg.sim] at hx <;> (try subst hx) <;> (try rw [hn]) <;> simp [tier]
+
+example : ((exec C01.exCfg (initState C01.exCfg) [.start 0, .start 1]).map fun s =>
+    (s.failed.isNone, (s.sims 0).pc, (s.sims 1).pc, (step C01.exCfg s (.deps 0)).isSome))
+    = some (true, .waitDeps [0], .awaitSettle [2] none, true) := by decide
 
 end Mosaik.C05
